@@ -103,4 +103,200 @@ theorem nearestEven_unique {num den b1 b2 : Nat}
   · exact h
   · exact (nearestEven_lt_absurd h2 h1 h).elim
 
+/-! ### the executable `roundNE` satisfies the specification -/
+
+/-- `floorBits` as a function of `t = ⌊num · 2^1075 / den⌋`. -/
+def fbT (t : Nat) : Nat :=
+  if t < 2 ^ 53 then t / 2
+  else
+    let eb := t.log2 - 52
+    if eb ≥ 2047 then INF_BITS else eb * 2 ^ 52 + (t / 2 ^ eb - 2 ^ 52)
+
+theorem floorBits_eq (num den : Nat) : floorBits num den = fbT (num * 2 ^ 1075 / den) := rfl
+
+theorem scaled_INF : scaled INF_BITS = 2 ^ 52 * 2 ^ 2047 := by
+  unfold scaled INF_BITS
+  have h1 : 0x7FF0000000000000 / 2 ^ 52 = 2047 := by decide
+  have h2 : 0x7FF0000000000000 % 2 ^ 52 = 0 := by decide
+  rw [h1, h2]; simp
+
+theorem fbT_spec (t : Nat) :
+    fbT t ≤ INF_BITS ∧ scaled (fbT t) ≤ t ∧ (fbT t ≠ INF_BITS → t < scaled (fbT t + 1)) := by
+  have hP52 : (2 : Nat) ^ 52 = 4503599627370496 := by decide
+  have hP53 : (2 : Nat) ^ 53 = 9007199254740992 := by decide
+  have hINF : INF_BITS = 9218868437227405312 := by decide
+  unfold fbT
+  by_cases hsmall : t < 2 ^ 53
+  · -- subnormal range and the first binade
+    rw [if_pos hsmall]
+    rw [hP53] at hsmall
+    refine ⟨by rw [hINF]; omega, ?_, ?_⟩
+    · unfold scaled; rw [hP52]
+      have : t / 2 / 4503599627370496 = 0 := by omega
+      rw [if_pos this]; omega
+    · intro _
+      unfold scaled; rw [hP52]
+      by_cases hb : t / 2 + 1 < 4503599627370496
+      · have : (t / 2 + 1) / 4503599627370496 = 0 := by omega
+        rw [if_pos this]; omega
+      · have h1 : (t / 2 + 1) / 4503599627370496 = 1 := by omega
+        have h2 : (t / 2 + 1) % 4503599627370496 = 0 := by omega
+        rw [h1, h2]; simp; omega
+  · rw [if_neg hsmall]
+    have ht0 : t ≠ 0 := by
+      intro h; rw [h] at hsmall; exact hsmall (by decide)
+    have hL1 : 2 ^ t.log2 ≤ t := Nat.log2_self_le ht0
+    have hL2 : t < 2 ^ (t.log2 + 1) := Nat.lt_log2_self
+    have hL53 : 53 ≤ t.log2 := by
+      apply Nat.le_of_not_lt
+      intro h
+      exact hsmall ((Nat.log2_lt ht0).mp h)
+    generalize hL : t.log2 = L at *
+    obtain ⟨eb, rfl⟩ : ∃ eb, L = eb + 52 := ⟨L - 52, by omega⟩
+    have heb1 : 1 ≤ eb := by omega
+    simp only [Nat.add_sub_cancel]
+    by_cases hbig : eb ≥ 2047
+    · simp only [hbig, if_true]
+      refine ⟨Nat.le_refl _, ?_, fun h => absurd rfl h⟩
+      rw [scaled_INF, ← Nat.pow_add]
+      exact Nat.le_trans (Nat.pow_le_pow_right (by omega) (by omega)) hL1
+    · simp only [hbig, if_false]
+      have hQpos : 0 < 2 ^ eb := Nat.pow_pos (by omega)
+      have hsplit1 : 2 ^ (eb + 52) = 2 ^ 52 * 2 ^ eb := by rw [Nat.add_comm, Nat.pow_add]
+      have hsplit2 : 2 ^ (eb + 52 + 1) = 2 ^ 53 * 2 ^ eb := by
+        rw [show eb + 52 + 1 = 53 + eb by omega, Nat.pow_add]
+      have hq1 : 2 ^ 52 ≤ t / 2 ^ eb := by
+        rw [Nat.le_div_iff_mul_le hQpos, ← hsplit1]; exact hL1
+      have hq2 : t / 2 ^ eb < 2 ^ 53 := by
+        rw [Nat.div_lt_iff_lt_mul hQpos, ← hsplit2]; exact hL2
+      have hle : t / 2 ^ eb * 2 ^ eb ≤ t := Nat.div_mul_le_self _ _
+      have hlt : t < t / 2 ^ eb * 2 ^ eb + 2 ^ eb := Nat.lt_div_mul_add hQpos
+      generalize hq : t / 2 ^ eb = q at *
+      generalize hQ : 2 ^ eb = Q at *
+      rw [hP52] at hq1 ⊢
+      rw [hP53] at hq2
+      refine ⟨by rw [hINF]; omega, ?_, ?_⟩
+      · unfold scaled; rw [hP52]
+        have h1 : (eb * 4503599627370496 + (q - 4503599627370496)) / 4503599627370496 = eb := by omega
+        have h2 : (eb * 4503599627370496 + (q - 4503599627370496)) % 4503599627370496
+            = q - 4503599627370496 := by omega
+        rw [h1, h2, if_neg (by omega), hQ]
+        have : 4503599627370496 + (q - 4503599627370496) = q := by omega
+        rw [this]; exact hle
+      · intro _
+        unfold scaled; rw [hP52]
+        by_cases hfr : q - 4503599627370496 + 1 < 4503599627370496
+        · have h1 : (eb * 4503599627370496 + (q - 4503599627370496) + 1) / 4503599627370496 = eb := by
+            omega
+          have h2 : (eb * 4503599627370496 + (q - 4503599627370496) + 1) % 4503599627370496
+              = q - 4503599627370496 + 1 := by omega
+          rw [h1, h2, if_neg (by omega), hQ]
+          have : 4503599627370496 + (q - 4503599627370496 + 1) = q + 1 := by omega
+          rw [this, Nat.add_mul, Nat.one_mul]; exact hlt
+        · have h1 : (eb * 4503599627370496 + (q - 4503599627370496) + 1) / 4503599627370496
+              = eb + 1 := by omega
+          have h2 : (eb * 4503599627370496 + (q - 4503599627370496) + 1) % 4503599627370496 = 0 := by
+            omega
+          rw [h1, h2, if_neg (by omega), Nat.pow_succ, hQ]
+          have hqv : q = 9007199254740991 := by omega
+          subst hqv
+          omega
+
+theorem floorBits_spec (num den : Nat) (hden : 0 < den) :
+    floorBits num den ≤ INF_BITS ∧ scaled (floorBits num den) * den ≤ num * 2 ^ 1075 ∧
+    (floorBits num den ≠ INF_BITS → num * 2 ^ 1075 < scaled (floorBits num den + 1) * den) := by
+  rw [floorBits_eq]
+  generalize num * 2 ^ 1075 = X
+  obtain ⟨h1, h2, h3⟩ := fbT_spec (X / den)
+  have hle : X / den * den ≤ X := Nat.div_mul_le_self _ _
+  have hlt : X < X / den * den + den := Nat.lt_div_mul_add hden
+  refine ⟨h1, Nat.le_trans (Nat.mul_le_mul_right _ h2) hle, ?_⟩
+  intro hne
+  have h4 : X / den + 1 ≤ scaled (fbT (X / den) + 1) := h3 hne
+  have : (X / den + 1) * den ≤ scaled (fbT (X / den) + 1) * den := Nat.mul_le_mul_right _ h4
+  rw [Nat.add_mul, Nat.one_mul] at this
+  omega
+
+/-- **roundNE is correct**: the computed bit pattern satisfies `isNearestEven`. -/
+theorem roundNE_spec (num den : Nat) (hden : 0 < den) :
+    isNearestEven num den (roundNE num den) = true := by
+  unfold roundNE
+  dsimp only
+  split
+  · next h => exact h
+  · next hnot =>
+    obtain ⟨hb, hlo, hhi⟩ := floorBits_spec num den hden
+    generalize floorBits num den = b at *
+    generalize hX : num * 2 ^ 1075 = X at *
+    -- the lower bound of `b` always holds; so `b < INF_BITS` and the upper bound fails
+    have hlow : b ≠ 0 → midSum (b - 1) * den < 2 * X := by
+      intro hb0
+      have h1 : scaled (b - 1) < scaled b := scaled_mono (by omega)
+      have hb1 : b - 1 + 1 = b := by omega
+      have : midSum (b - 1) < 2 * scaled b := by unfold midSum; rw [hb1]; omega
+      have h2 : midSum (b - 1) * den < 2 * scaled b * den := Nat.mul_lt_mul_of_pos_right this hden
+      have h3 : 2 * scaled b * den = 2 * (scaled b * den) := Nat.mul_assoc _ _ _
+      omega
+    by_cases hbi : b = INF_BITS
+    · exfalso
+      apply hnot
+      unfold isNearestEven
+      simp only [Bool.and_eq_true, decide_eq_true_eq, Bool.or_eq_true, beq_iff_eq, hX]
+      refine ⟨⟨hden, hb⟩, ?_, Or.inl hbi⟩
+      by_cases hb0 : b = 0
+      · exact Or.inl hb0
+      · right
+        have := hlow hb0
+        split
+        · exact decide_eq_true (Nat.le_of_lt this)
+        · exact decide_eq_true this
+    · have hhi' := hhi hbi
+      have hup : 2 * X < midSum (b + 1) * den := by
+        have h1 : scaled (b + 1) < scaled (b + 1 + 1) := scaled_mono (by omega)
+        have : 2 * scaled (b + 1) < midSum (b + 1) := by unfold midSum; omega
+        have h2 : 2 * scaled (b + 1) * den < midSum (b + 1) * den :=
+          Nat.mul_lt_mul_of_pos_right this hden
+        have h3 : 2 * scaled (b + 1) * den = 2 * (scaled (b + 1) * den) := Nat.mul_assoc _ _ _
+        omega
+      -- the failed upper bound of `b`
+      have hfail : (b % 2 = 0 → midSum b * den < 2 * X) ∧ (b % 2 = 1 → midSum b * den ≤ 2 * X) := by
+        constructor
+        · intro hev
+          apply Nat.lt_of_not_le
+          intro hle
+          apply hnot
+          unfold isNearestEven
+          simp only [Bool.and_eq_true, decide_eq_true_eq, Bool.or_eq_true, beq_iff_eq, hX]
+          refine ⟨⟨hden, hb⟩, ?_, Or.inr ?_⟩
+          · by_cases hb0 : b = 0
+            · exact Or.inl hb0
+            · right; simp only [hev, if_true]; exact decide_eq_true (Nat.le_of_lt (hlow hb0))
+          · simp only [hev, if_true]; exact decide_eq_true hle
+        · intro hod
+          apply Nat.le_of_not_lt
+          intro hlt
+          apply hnot
+          unfold isNearestEven
+          simp only [Bool.and_eq_true, decide_eq_true_eq, Bool.or_eq_true, beq_iff_eq, hX]
+          have hne : ¬ (b % 2 = 0) := by omega
+          refine ⟨⟨hden, hb⟩, ?_, Or.inr ?_⟩
+          · by_cases hb0 : b = 0
+            · exact Or.inl hb0
+            · right; simp only [hne, if_false]; exact decide_eq_true (hlow hb0)
+          · simp only [hne, if_false]; exact decide_eq_true hlt
+      unfold isNearestEven
+      simp only [Bool.and_eq_true, decide_eq_true_eq, Bool.or_eq_true, beq_iff_eq, hX]
+      have hb1 : b + 1 - 1 = b := by omega
+      refine ⟨⟨hden, by omega⟩, Or.inr ?_, ?_⟩
+      · rw [hb1]
+        by_cases hev : (b + 1) % 2 = 0
+        · simp only [hev, if_true]; exact decide_eq_true (hfail.2 (by omega))
+        · simp only [hev, if_false]; exact decide_eq_true (hfail.1 (by omega))
+      · by_cases hbi' : b + 1 = INF_BITS
+        · exact Or.inl hbi'
+        · right
+          by_cases hev : (b + 1) % 2 = 0
+          · simp only [hev, if_true]; exact decide_eq_true (Nat.le_of_lt hup)
+          · simp only [hev, if_false]; exact decide_eq_true hup
+
 end Rsj.Dec
